@@ -151,3 +151,41 @@ def device_writes(ctx, repo, rule, kinds=False):
 def key_presses(ctx, repo, rule, kinds=True):
     cases = ((1,), (16,), (23,), (255,))
     _compare(ctx, repo, rule, KEY_SITES, "keypress", cases, kinds, lambda c: f"keypad={c[0]}")
+
+
+def overlapping_writes(ctx, repo, rule):
+    """Two awaitable writes in flight on one connection: protocol.get() calls a request factory only once it holds the
+    request lock - and again for every retry - so the factory of write A may run after write B was issued.  Both
+    callbacks are interpreted on ONE model connection whose get() only collects the factories; then the factories are
+    called in the order A, B, A (a retry of A): each must build its own write's datagram."""
+    A, B = (300, 1, 0x5A), (0x0123, 2, 0xBEEF)
+    for cname, mname, label in (SET_SITES[1],):
+        interp = Interp(repo, max_depth=10)
+        factories = []
+        proto = Obj(None, {"get_and_increment_sequence_counter": Native(lambda a, k: SEQ, "counter"),
+                           "get": Native(lambda a, k: (factories.append(a[0]), Obj(None, name="reply"))[1], "get"),
+                           "queue_send": Native(lambda a, k: None, "queue_send")}, name="protocol")
+        spa = Obj(repo.cls(cname), dict(IDENT), name=cname)
+        spa.attrs.update({"sendparms": PARMS, "_protocol": proto, "is_connected": True, "_is_connected": True, "is_responding_to_pings": True,
+                          "_event_handler": Native(lambda a, k: None, "_event_handler")})
+        fi = repo.method(cname, mname)
+        try:
+            interp.call(fi, spa, list(A))
+            interp.call(fi, spa, list(B))
+            built = []
+            for idx in (0, 1, 0):
+                if idx >= len(factories):
+                    built.append("<no factory>")
+                    continue
+                h = factories[idx]
+                h = h if isinstance(h, Obj) else interp.apply(h, [], {})
+                built.append(_bytes_of(interp, h))
+        except PyRaise as e:
+            built = [f"raises {e.what}"]
+        except Undecided as e:
+            raise AnalysisError(f"{cname}.{mname}: two writes in flight on the model connection: {e}")
+        ref = [_reference(repo, "set_value", (SEQ,) + w) for w in (A, B, A)]
+        ctx.ob(rule, f"{cname}.{mname}::each-request-factory-builds-its-own-write", built == ref,
+               f"{cname}.{mname}{A} and then {B} issued before either was sent: their request factories, called in the order first, second, first (a retry), build {built!r}, "
+               f"expected {ref!r} - a write parked in shared state is replaced by the write issued after it (the first item is never written, the second twice)", fi.loc,
+               sample={"rule": rule, "site": f"{cname}.{mname}", "built": [repr(b) for b in built]})
